@@ -244,8 +244,18 @@ def rule_guard(run):
         from ..formula import check_return
         a_ = fnest.params[0] if fnest.params else 't'
         P = ts.params[0]
-        check_return(run, 't2thermo.tsat :: root of sat(t) - p', fnest, 'sat(%s) - %s' % (a_, P), 'tsat does not solve sat(t) - p = 0',
-                     alternatives=('sat(%s[0]) - %s' % (a_, P), 'sat(%s.item()) - %s' % (a_, P)))
+        # the residual must be defined wherever the solver probes (its first probes lie above the critical temperature): sat() is called
+        # with range checking off
+        rets_ = [r for r in ast.walk(fnest.node) if isinstance(r, ast.Return) and r.value is not None]
+        checked = [c for r in rets_ for c in ast.walk(r.value) if isinstance(c, ast.Call) and call_name(c) == 'sat' and
+                   (len(c.args) > 1 or any(k.arg == 'bounds' for k in c.keywords))]
+        on = [c for c in checked if not all(isinstance(x, ast.Constant) and x.value is False for x in (list(c.args[1:2]) + [k.value for k in c.keywords if k.arg == 'bounds']))]
+        if on:
+            run.violated('t2thermo.tsat :: root of sat(t) - p', 'the residual calls `%s`: with range checking on sat() returns None outside 0.01..Tc1_C, where the '
+                         'root finder probes for pressures near the critical one, and `None - p` raises' % norm(on[0]), where=fnest.where(on[0]), robust=True)
+        else:
+            check_return(run, 't2thermo.tsat :: root of sat(t) - p', fnest, 'sat(%s) - %s' % (a_, P), 'tsat does not solve sat(t) - p = 0',
+                         alternatives=('sat(%s[0]) - %s' % (a_, P), 'sat(%s.item()) - %s' % (a_, P)))
 
 
 def rule_sibconst(run):
